@@ -1,2 +1,3 @@
-/- stub: line-protocol driver for C11 (to be written) -/
-def main : IO Unit := pure ()
+/- drv_c11: line-protocol driver of the side-effect analysis model (property C11); see Drv/C11Lib.lean. -/
+import UtapModel.Drv.C11Lib
+def main : IO Unit := UtapModel.EffectDrv.driverMain
